@@ -83,6 +83,9 @@ def steps(node):
         syms = node["symbols"]
         out.append(("enum-drop-symbol-with-default", dict(node, symbols=syms[:-1], default=syms[0])))
         out.append(("enum-drop-symbol-no-default", dict(node, symbols=syms[:-1])))
+        if "default" in node:
+            # the WRITER's enum declares a default, the reader's neither knows the symbol nor has a default of its own
+            out.append(("enum-drop-symbol-and-own-default", {k: v for k, v in dict(node, symbols=[x for x in syms if x != syms[-1]]).items() if k != "default"}))
         out.append(("enum-drop-first-symbol-with-default", dict(node, symbols=syms[1:], default=syms[-1])))
         out.append(("enum-add-symbol", dict(node, symbols=syms + ["ZZ"])))
         out.append(("enum-reorder", dict(node, symbols=syms[::-1])))
